@@ -253,7 +253,7 @@ class C12(Check):
         from .c15 import features_of, map_value_ends_in_record, record_reuse_substring
         feats = set()
         features_of(node, table, feats)
-        return not (feats & {"recursive", "empty-record"}) and not map_value_ends_in_record(node, table) and not record_reuse_substring(node, table)
+        return not (feats & {"recursive", "empty-record"}) and not map_value_ends_in_record(node, table) and not record_reuse_substring(node, table, include_inline=True)
 
     def _operations(self, case, node, table, json_ok, labels):
         data = case["data"]
